@@ -45,6 +45,7 @@ class Flow:
         self.stop = set(stop_funcs)      # Func objects whose parameters are sources
         self.hook = hook                  # hook(fn, name, what, payload, flow) -> frozenset | None
         self.expr_hook = None             # expr_hook(fn, subscript expr, flow, env, depth) -> frozenset | None
+        self.caller_filter = None         # caller_filter(Func) -> bool: which calling contexts supply a parameter's value when none is bound
         self.maxdepth = MAXDEPTH
         self._cfg = {}
         self._rd = {}
@@ -53,6 +54,7 @@ class Flow:
         self._attrstores = {}
         self.depth_hits = 0
         self.rec_hits = 0
+        self._synth = {}
         self._memo = {}
         self._fstack = []
         self._keep = []
@@ -496,7 +498,7 @@ class Flow:
             return self._iter_elems(self.term(it.args[idx], f, env, depth + 1), env, depth)
         if it.func.id == "enumerate" and len(it.args) >= 1:
             if idx == 0:
-                return fs(("ext", "builtins.int", ()))
+                return fs(("ext", "builtins.int", (), ()))
             if idx == 1:
                 return self._iter_elems(self.term(it.args[0], f, env, depth + 1), env, depth)
         return None
@@ -615,6 +617,8 @@ class Flow:
                 # decorator application: the decorated function object
                 out.add(("global", "decorated", getattr(arg, "id", "?")))
                 continue
+            if caller is not None and self.caller_filter is not None and not self.caller_filter(caller):
+                continue        # a calling context outside the operation under analysis
             out |= self.term(arg, caller, {}, depth + 1, caller.module if caller else f.module)
         d = f.defaults().get(name)
         if d is not None:
@@ -885,7 +889,29 @@ class Flow:
     def as_tuple(self, expr, fn, mod=None):
         """Element expressions of a tuple-valued expression: a tuple display, or a namedtuple constructed in place."""
         if isinstance(expr, ast.Tuple):
-            return list(expr.elts)
+            if not any(isinstance(x, ast.Starred) for x in expr.elts):
+                return list(expr.elts)
+            # (a, *rest) with `rest` a local bound once to a list / tuple display of known length: a, rest[0], rest[1] ...
+            hit = self._synth.get(id(expr))
+            if hit is not None:
+                return hit[1]
+            out = []
+            for x in expr.elts:
+                if not isinstance(x, ast.Starred):
+                    out.append(x)
+                    continue
+                v = x.value
+                bl = self.res.bindings(fn).get(v.id, []) if isinstance(v, ast.Name) and fn is not None else []
+                vals = [p_ for w_, p_ in bl if w_ == "value"]
+                if len(vals) != 1 or len(bl) != 1 or not isinstance(vals[0], (ast.List, ast.Tuple)) or any(isinstance(y, ast.Starred) for y in vals[0].elts):
+                    return None
+                for i in range(len(vals[0].elts)):
+                    sub = ast.Subscript(value=ast.Name(id=v.id, ctx=ast.Load()), slice=ast.Constant(value=i), ctx=ast.Load())
+                    ast.copy_location(sub, x)
+                    ast.fix_missing_locations(sub)
+                    out.append(sub)
+            self._synth[id(expr)] = (expr, out)
+            return out
         if isinstance(expr, ast.Call):
             fields = self.namedtuple_fields(expr.func, fn, mod)
             if fields and not any(isinstance(a, ast.Starred) for a in expr.args) and all(kw.arg for kw in expr.keywords):
@@ -1002,6 +1028,22 @@ def _subsets(part):
                 out.extend(_subsets(p))
         return out
     return []
+
+
+def travels_in_container(terms, interesting):
+    """True if a term selects an element (loop element, variable index, unpacking) of a container literal that holds more
+    than one `interesting` value side by side: which of them arrives is then not separated by the term language."""
+    for t in walk_terms(terms):
+        if t[0] in ("elem", "sub", "inloop") and len(t) > 1 and isinstance(t[1], frozenset):
+            if t[0] == "sub" and len(t) > 2 and isinstance(t[2], frozenset) and t[2] and all(i[0] == "const" and not isinstance(i[1], str) for i in t[2]):
+                pass        # constant index: still merged by this representation
+            for b in t[1]:
+                if b[0] in ("list", "dict") and isinstance(b[1], tuple):
+                    parts = [x if isinstance(x, frozenset) else (x[1] if isinstance(x, tuple) and len(x) == 2 else frozenset()) for x in b[1]]
+                    holders = [pt for pt in parts if isinstance(pt, frozenset) and any(interesting(y) for y in walk_terms(pt))]
+                    if len(holders) > 1:
+                        return True
+    return False
 
 
 def leaves(terms):
